@@ -82,14 +82,39 @@ Proof.
                  | unfold placement_witness; eexists; split; vm_compute; reflexivity ].
 Qed.
 
-(* nulless + furibug: the second string of the script reads back with the first one's masked bytes attached *)
-Definition nullessfuri_sig : list enc := [EStr (SFixed 8 true) 0 0 0 true].
+(* nulless + furibug: after a furigana line, the text of a nulless furibug string reads back with the
+   furigana line's (masked) bytes attached: "b" becomes "b|a" *)
+Definition nullessfuri_params : list sparam := [PStr (SFixed 8 true) 0 0 0 true].
 Definition nullessfuri_witness : Prop :=
-  exists r1 st1 r2 st2,
-    encode_args (fun s => Some s) gen_codec false nullessfuri_sig [mkarg (AStr [124; 97]) false] None = Ok (r1, st1) /\
-    encode_args (fun s => Some s) gen_codec false nullessfuri_sig [mkarg (AStr [98]) false] st1 = Ok (r2, st2) /\
+  exists sig r1 st1 r2 st2,
+    abi_of_params gen_codec false nullessfuri_params = Some sig /\
+    encode_args (fun s => Some s) gen_codec false [EStr (SBlock 1) 0 0 0 true] [mkarg (AStr [124; 97]) false] None = Ok (r1, st1) /\
+    encode_args (fun s => Some s) gen_codec false sig [mkarg (AStr [98]) false] st1 = Ok (r2, st2) /\
     r_warn r2 = [] /\
-    decode_call (fun b => Some b) gen_codec nullessfuri_sig r2 = Ok ([mkarg (AStr [98; 124; 97]) false], []).
+    decode_call (fun b => Some b) gen_codec sig r2 = Ok ([mkarg (AStr [98; 124; 97]) false], []).
 
-Lemma nullessfuri_refuted : nullessfuri_witness.
-Proof. unfold nullessfuri_witness. do 4 eexists. split; [vm_compute; reflexivity|]. split; [vm_compute; reflexivity|]. split; vm_compute; reflexivity. Qed.
+Lemma nullessfuri_refuted : cd_nulless_furibug_rejected gen_codec = false -> nullessfuri_witness.
+Proof.
+  intro E. first [ vm_compute in E; discriminate E
+                 | unfold nullessfuri_witness; do 5 eexists; split; [vm_compute; reflexivity|]; split; [vm_compute; reflexivity|];
+                   split; [vm_compute; reflexivity|]; split; vm_compute; reflexivity ].
+Qed.
+
+Lemma accepted_call_never_panics_gen :
+  forall (sjis_enc : list Z -> option bytes) lang_arg0 ps sig args has_regs st,
+  abi_of_params gen_codec lang_arg0 ps = Some sig ->
+  cd_match_skips_padding gen_codec = true \/ trailing_pad_only sig = true ->
+  cd_bs_checked gen_codec = true \/ forallb bs_ok sig = true ->
+  check_call gen_codec sig args = true ->
+  is_panic (encode_args sjis_enc gen_codec has_regs sig args st) = false.
+Proof.
+  intros sjis_enc lang_arg0 ps sig args has_regs st Habi Hg Hb Hc.
+  unfold abi_of_params in Habi. destruct (encs_of_params gen_codec ps) as [sig'|] eqn:Ep; [|discriminate].
+  destruct (validate sig' && (negb (existsb is_arg0 (firstn 1 sig')) || lang_arg0)) eqn:Ev; [|discriminate].
+  injection Habi as <-. apply andb_true_iff in Ev. destruct Ev as [Hv _].
+  apply (encode_no_panic sjis_enc gen_codec gen_codec_ok).
+  - exact (proj1 (validate_facts _ Hv)).
+  - destruct Hb as [Hb|Hb]; [exact (params_bs_ok _ Hb _ _ Ep)|exact Hb].
+  - exact (params_known _ gen_chars_covered _ _ Ep).
+  - exact (check_call_typed _ _ _ Hg Hc).
+Qed.
